@@ -241,7 +241,9 @@ def run_property(prop_id, tier, obligations, info, seed=0, budget=None):
             print('  got      %s\n  expected %s' % (r['got'][:400], r['expected'][:400]))
         elif r.get('detail'):
             print('  ' + r['detail'][-400:].replace('\n', '\n  '))
-    for rec in errors:
+    if len(errors) > 6:
+        print('HARNESS-ERROR property=%s: %d obligations with harness errors, first 6 shown' % (prop_id, len(errors)))
+    for rec in errors[:6]:
         print('HARNESS-ERROR property=%s obligation=%s %s: %s' % (prop_id, rec['name'], rec['verdict'], (rec.get('detail') or rec.get('cx_message') or '')[-400:].replace('\n', ' | ')))
 
     write_evidence(prop_id, tier, seed, records, info, time.time() - t0, len(violations))
